@@ -35,6 +35,7 @@ ASSUMPTIONS = [
     "corrupted wants use unique BOGUS<id> lines, so they cannot equal a trailing portion of the true output",
 ]
 NSHARDS = {'quick': 16, 'thorough': 16}
+RULE += (' Directed probes: an exception no want documents in seven placements (no want, ordinary want, IGNORE_WANT inline / block / default, after an ignored want); doctests in which nothing can run written with empty prompt lines; statements that print the characters of the blank-line marker; a value followed by a comment line written with the primary prompt (finding F55).')
 FORMS = 'ABC'
 CORRUPTIONS = ['replace', 'append', 'prepend', 'drop', 'stale', 'stale', 'noellipsis', 'noellipsis', 'stalevalue',
                'stalevalue']
